@@ -548,6 +548,9 @@ Proof.
   apply G_W_l; [reflexivity|apply G_p_ident].
 Qed.
 
+Lemma G_fn_p_members_def l : G (p_members_def l) = true /\ fn (p_members_def l) = true.
+Proof. destruct l; [split; reflexivity|]. apply G_fn_p_members. Qed.
+
 Lemma G_fn_p_rootops l : G (p_rootops l) = true /\ fn (p_rootops l) = true /\ ln (p_rootops l) = true.
 Proof.
   unfold p_rootops. split; [|split; [reflexivity|lnt]].
@@ -584,7 +587,7 @@ Proof.
   - pose proof (G_fn_app2 _ _ (G_fn_p_implements impls) (G_fn_app2 _ _ (G_fn_sp_dirs dirs) (G_fn_p_body p_fielddef fields G_p_fielddef))) as [Ga Fa].
     pose proof (G_def_tail _ Ga Fa) as [X Y]. rewrite <- !app_assoc in X, Y.
     apply G_head; [reflexivity|exact X|exact Y].
-  - pose proof (G_fn_app2 _ _ (G_fn_sp_dirs dirs) (G_fn_p_members members)) as [Ga Fa].
+  - pose proof (G_fn_app2 _ _ (G_fn_sp_dirs dirs) (G_fn_p_members_def members)) as [Ga Fa].
     pose proof (G_def_tail _ Ga Fa) as [X Y]. rewrite <- !app_assoc in X, Y.
     apply G_head; [reflexivity|exact X|exact Y].
   - pose proof (G_fn_app2 _ _ (G_fn_sp_dirs dirs) (G_fn_p_body p_enumval vals G_p_enumval)) as [Ga Fa].
